@@ -1952,6 +1952,13 @@ def install(models):
             return m_try_from
         if p in ("std::convert::From::from", "std::convert::Into::into") and ("convert::num::float_conv" in name or " for f64>" in name or " for f32>" in name):
             return m_float_from_int
+        if p == "std::convert::Into::into" and name == "<T as std::convert::Into<U>>::into":
+            ga = callee.get("generic_args") or []
+            if len(ga) == 2:
+                if ga[0] == ga[1]:
+                    return m_into_identity
+                if "<%s as std::convert::From<%s>>::from" % (ga[1], ga[0]) in _FACTS_BODIES():
+                    return m_into_from
         if p == "std::str::FromStr::from_str" and "core::num" in name:
             return m_parse_result
         if p != "std::convert::From::from" and name.endswith(">::from") and "convert::num" in name:
@@ -1964,6 +1971,22 @@ def install(models):
             return None
         return prev(callee, name) if prev else None
     models.lookup_extra = extra
+
+
+def _FACTS_BODIES():
+    from .. import mirq
+    return mirq._FACTS.bodies if getattr(mirq, "_FACTS", None) is not None else {}
+
+
+def m_into_identity(I, st, c, args, body, t):
+    return st, args[0]
+
+
+def m_into_from(I, st, c, args, body, t):
+    """the blanket `impl<T, U: From<T>> Into<U> for T` is `U::from(self)`: run the crate's own `From` impl"""
+    from .domain import FnV
+    ga = c.get("generic_args") or []
+    return I.call_value(st, FnV("<%s as std::convert::From<%s>>::from" % (ga[1], ga[0])), [args[0]])
 
 
 _o_init = M.Models.__init__
